@@ -360,3 +360,54 @@ pub proof fn lemma_enter_preserves(f0: &Fsm, f1: &Fsm, g0: &GlobalData, g1: &Glo
         assert(g1.statesToInvoke.data@.contains(g1.statesToInvoke.data@[i]));
     }
 }
+
+/// content blocks of the transitions in ts, in list order (0 = none)
+pub open spec fn transition_contents(f: &Fsm, ts: Seq<u32>) -> Seq<u32>
+    decreases ts.len(),
+{
+    if ts.len() == 0 {
+        Seq::empty()
+    } else if tr(f, ts.last()).content > 0 {
+        transition_contents(f, ts.drop_last()).push(tr(f, ts.last()).content)
+    } else {
+        transition_contents(f, ts.drop_last())
+    }
+}
+
+/// W3C microstep(enabledTransitions) as a relation between the state before and after
+pub open spec fn microstep_rel(f0: &Fsm, g0: &GlobalData, log0: Seq<Call>, ts: Seq<u32>, g2: &GlobalData, log2: Seq<Call>, lo: Seq<u32>, gm: &GlobalData, li: Seq<u32>) -> bool {
+    let ex = spec_exit_set(f0, g0, ts);
+    let x = spec_entry_set(f0, gm, ts, empty_ent());
+    &&& same_members(lo, ex) && exit_sorted(f0, lo)
+    &&& gm.configuration.data@ == without_all(g0.configuration.data@, ex)
+    &&& gm.statesToInvoke.data@ == without_all(g0.statesToInvoke.data@, ex)
+    &&& hvv(gm.historyValue) == hvv(g0.historyValue).union_prefer_right(hist_outer(f0, g0.configuration.data@, Map::empty(), lo))
+    &&& same_members(li, x.e) && entry_sorted(f0, li)
+    &&& g2.configuration.data@ == set_add_all(gm.configuration.data@, li)
+    &&& g2.statesToInvoke.data@ == set_add_all(gm.statesToInvoke.data@, li)
+    &&& g2.historyValue == gm.historyValue
+    &&& log2 == log0 + execs(onexit_blocks(f0, lo)) + execs(transition_contents(f0, ts)) + entry_calls(f0, x, li)
+    &&& g2.running == (g0.running && !root_final_in(f0, li))
+}
+
+/// the session invariant only looks at configuration, statesToInvoke and the history table
+pub proof fn lemma_sess_frame(f: &Fsm, ga: &GlobalData, gb: &GlobalData)
+    requires
+        sess_wf(f, ga),
+        gb.configuration == ga.configuration,
+        gb.statesToInvoke == ga.statesToInvoke,
+        gb.historyValue == ga.historyValue,
+    ensures
+        sess_wf(f, gb),
+{
+    assert forall|h: u32| hv_has(gb, h) implies #[trigger] hv_entry_ok(f, gb, h) by {
+        assert(hv_has(ga, h));
+        assert(hv_get(ga, h) == hv_get(gb, h));
+        assert(hv_entry_ok(f, ga, h));
+    }
+    assert forall|h: u32| hv_has(gb, h) implies all_valid(f, #[trigger] hv_get(gb, h)) by {
+        assert(hv_has(ga, h));
+        assert(hv_get(ga, h) == hv_get(gb, h));
+        assert(all_valid(f, hv_get(ga, h)));
+    }
+}
